@@ -146,6 +146,38 @@ pub fn gen_source_cache(rng: &mut Rng, tier: &Tier) -> Vec<Case> {
     cases
 }
 
+/// C20: the unit-system wrappers of sources and sinks against the bare objects, in lockstep
+pub fn gen_unit_wrappers(rng: &mut Rng, tier: &Tier) -> Vec<Case> {
+    let mut cases = Vec::new();
+    if !cfg!(feature = "units") {
+        return cases;
+    }
+    for _ in 0..tier.n(100, 1000) {
+        let e = src_expr(rng, 2, false);
+        let mut c = vec![format!("new 1 src units({})", e), format!("new 2 src {}", e)];
+        for _ in 0..rng.range(2, 10) {
+            c.push("pull 1".into());
+            c.push("pull 2".into());
+            c.push("ssame 1 2 C20.unit-source-transparent".into());
+        }
+        cases.push(c);
+    }
+    for _ in 0..tier.n(60, 600) {
+        let mut c = vec!["new 1 sink_unit_sum".to_string(), "new 2 own_sum".to_string(), "fin 1".to_string(), "fin 2".to_string(),
+                         "ksame 1 2 C20.unit-sink-transparent".to_string()];
+        let len = rng.range(1, 7) as usize;
+        for v in crate::gen::rat_seq(rng, len) {
+            c.push(format!("sink 1 {}", v));
+            c.push(format!("sink 2 {}", v));
+            c.push("fin 1".into());
+            c.push("fin 2".into());
+            c.push("ksame 1 2 C20.unit-sink-transparent".into());
+        }
+        cases.push(c);
+    }
+    cases
+}
+
 pub const SINKS: [&str; 10] = [
     "sink_unit_sum",
     "sink_min", "sink_max", "sink_bounds", "sink_last", "sink_integrate", "sink_mean", "sink_meanvar",
